@@ -72,3 +72,28 @@ PLAN["C03"] = {
     ],
     "scope_note": "Verus: unbounded in n (< 64), table length and index. Kani: complete per size/index for LutN 1..12 and Lut 1..14.",
 }
+
+
+PLAN["C01"] = {
+    "level": "proof",
+    "technique": "Verus contract on the real not_inplace/num_vars_mask (all n < 64, all lengths) + Kani contract triples on the real and/or/xor kernels per length and on every syntactic operator form of Lut/LutN per size, against the Boolean operation on words and on a symbolic assignment",
+    "level_text": "NOT is proved for every n and table length by Verus (word- and assignment-level postcondition, wf established). AND/OR/XOR kernels are proved per table length 1..256 (every length a table of <= 14 variables can have), and all 28 syntactic forms (named, in-place, 4 operator-trait forms, 2 compound-assignment forms; NOT: 4 forms) are proved per type LutN N=0..12 and Lut n=0..14 by fully unwound Kani triples: forms agree, result == word-wise and assignment-wise Boolean operation, operands unchanged, result well-formed with n variables.",
+    "level_note": "Trusted: Verus/Z3/vstd, Kani/CBMC, rustc, extraction rules of DESIGN 2.3. and/or/xor_inplace are outside Verus's subset (`*t1 &= t2` with t2: &u64), so they are complete per length, not unbounded.",
+    "verus_units": ["kernels"],
+    "kani_units": ["spec_ops.rs", "c01_logic.rs"],
+    "kani_filters": {"quick": ["c01q_"], "thorough": ["c01t_"]},
+    "kani_scope": {r"_k_": "complete(kernel, fixed table length: all contents)", r"_s_": "complete(LutN, fixed N: all tables, all assignments)", r"_d_": "complete(Lut, fixed n: all tables, all assignments)"},
+    "harness_timeout": {"quick": 600, "thorough": 3600},
+    "functions": ["operations::" + f for f in ["not_inplace", "and_inplace", "or_inplace", "xor_inplace", "num_vars_mask", "table_size"]]
+                 + ["Lut::/StaticLut::{not, and, or, xor, not_inplace, and_inplace, or_inplace, xor_inplace}",
+                    "Not/BitAnd/BitOr/BitXor/BitAndAssign/BitOrAssign/BitXorAssign impls of Lut and StaticLut (value and reference forms)"],
+    "twins": {
+        "not_inplace": {"filters": ["c01q_k_not", "c01t_k_not"], "complete": True},
+        "num_vars_mask": {"filters": ["c01q_k_not", "c01t_k_not"], "complete": True},
+    },
+    "assumptions": _VERUS_ASSUMED + [
+        "Kani triples fix the size per harness: LutN 0..12, Lut 0..14, kernel lengths 1..256 (the property's range)",
+        "size-mismatch behaviour of the binary forms is decided under C17",
+    ],
+    "scope_note": "Verus: not_inplace unbounded. Kani: complete per size for LutN 0..12, Lut 0..14, kernel lengths 1,2,4,...,256.",
+}
